@@ -23,14 +23,28 @@ def mirror_length_rule(ctx, rule="R32c"):
     of the second update leaves the first copy changed.  Its len() therefore has to come from the copy that is updated
     LAST (then a failed write cannot have changed the reported length, and the next append does not start beyond the
     real end of the file).  The order is read from write() / resize(), not frozen."""
+    fa = ctx.facts
+
+    def member_of(t):
+        n = cfg.callee(t) or ""
+        return "file" if "file_storage::FileStorage as" in n else ("memory" if "memory_storage::MemoryStorage as" in n else None)
+
     def members(b):
+        """(block, copy) for every call into one of the two copies; a call made inside a closure counts at the block
+        that receives the closure (`a.and_then(|_| b)`)"""
         out = []
         for i, t in cfg.calls(b):
-            if not t["a"] or not cfg.op_place(t["a"][0]):
-                continue
-            r0, f = cfg.origin(b, cfg.op_place(t["a"][0]))
-            if r0 == 1 and f and f[0] in (".file", ".memory"):
-                out.append((i, f[0][1:]))
+            m = member_of(t)
+            if m:
+                out.append((i, m))
+            for a in t["a"]:
+                pl = cfg.op_place(a)
+                for d in (cfg.defs(b).get(cfg.origin(b, pl)[0], []) if pl else []):
+                    if d[0] == "assign" and d[2]["k"] == "agg" and d[2].get("what") == "closure":
+                        cb = fa.body(d[2]["def"])
+                        for j, tt in (cfg.calls(cb) if cb else []):
+                            if member_of(tt):
+                                out.append((i, member_of(tt)))
         return out
     lb = ctx.anchor(rule, MM + "len")
     last_of = {}
